@@ -228,13 +228,15 @@ static int nv_finish(void)
 
 /* watchdog: a case that does not finish within the horizon is reported as a violation (slug-hang) */
 #include <signal.h>
+static const char *nv_case_str;	/* optional: the case in hand (set cheaply by harnesses that do not fork per case) */
 static char nv_guard_desc[1024];
 static char nv_guard_slug[64];
 static int nv_guard_exit;	/* exit status used by the watchdog (7 inside nv_forkloop children) */
 static void nv_guard_alarm(int sig)
 {
 	char buf[1400];
-	int n = snprintf(buf, sizeof(buf), "VIOL %s\tkind=hang no result within the horizon: %s\nSTAT deadline_hit 1\n", nv_guard_slug, nv_guard_desc);
+	int n = snprintf(buf, sizeof(buf), "VIOL %s\tkind=hang no result within the horizon: %s%s%s\nSTAT deadline_hit 1\n", nv_guard_slug, nv_guard_desc,
+		nv_case_str ? " case=" : "", nv_case_str ? nv_case_str : "");
 	(void) sig;
 	if (nv_out)
 		fflush(nv_out);
@@ -255,6 +257,35 @@ static void nv_guard(int seconds, const char *slug, const char *fmt, ...)
 	vsnprintf(nv_guard_desc, sizeof(nv_guard_desc), fmt, ap);
 	va_end(ap);
 	alarm(seconds);
+}
+
+/*
+ * Harnesses that evaluate their cases in the harness process itself (no fork per case): a fatal signal
+ * raised by the code under test (SIGSEGV, or SIGABRT from a sanitizer report) is reported as a violation
+ * naming the case in hand, instead of a dead shard.  nv_case_str is a cheap way to name the case.
+ */
+static const char *nv_crash_slug = "crash";
+static void nv_crash_handler(int sig)
+{
+	char buf[1800];
+	int n = snprintf(buf, sizeof(buf), "VIOL %s\tkind=fatal the code under test died with signal %d while evaluating %s%s%s%s (the sanitizer report, if any, is in the shard log)\nSTAT deadline_hit 1\n",
+		nv_crash_slug, sig, nv_guard_desc, nv_case_str ? " case=\"" : "", nv_case_str ? nv_esc(nv_case_str, -1) : "", nv_case_str ? "\"" : "");
+	if (nv_out)
+		fflush(nv_out);
+	if (n > (int) sizeof(buf) - 1)
+		n = sizeof(buf) - 1;
+	if (NV_SYS(write)(nv_out ? fileno(nv_out) : 1, buf, n) < 0)
+		_exit(3);
+	_exit(0);
+}
+static void nv_crash_guard(const char *slug)
+{
+	nv_crash_slug = slug;
+	signal(SIGSEGV, nv_crash_handler);
+	signal(SIGBUS, nv_crash_handler);
+	signal(SIGFPE, nv_crash_handler);
+	signal(SIGILL, nv_crash_handler);
+	signal(SIGABRT, nv_crash_handler);
 }
 
 /* print and reset the counters (used by forked children, whose memory is lost at exit) */
